@@ -33,3 +33,11 @@ impl Rng {
         (0..n).map(|_| self.next() as u8).collect()
     }
 }
+
+impl Rng {
+    /// `n` random bytes with `n` uniform below `max`
+    pub fn bytes_below(&mut self, max: u64) -> Vec<u8> {
+        let n = self.below(max) as usize;
+        self.bytes(n)
+    }
+}
